@@ -129,8 +129,8 @@ fn c06_info_reply_handle_data__known() {
     core::mem::forget(p);
 }
 
-// @check props=C06 tier=quick
-// @desc dispatcher on well-formed messages without INFO_REPLY: [INFO_TS(invalidate), HEARTBEAT] and [INFO_TS, INFO_SRC, PAD] with symbolic timestamp, version, vendor, prefixes, ids, sequence numbers and count are parsed by the real parser and iterated by the real MessageReceiver until exhaustion: no panic; the first yields exactly the HEARTBEAT with no timestamp and the header's prefix as source, the second yields nothing and leaves the INFO_SRC prefix and the INFO_TS timestamp in the receiver
+// @check props=C06 tier=thorough timeout=1800
+// @desc (NOT decided so far: > 900 s; CBMC explores every decoder although the framing bytes are concrete) dispatcher on well-formed messages without INFO_REPLY: [INFO_TS(invalidate), HEARTBEAT] and [INFO_TS, INFO_SRC, PAD] with symbolic timestamp, version, vendor, prefixes, ids, sequence numbers and count are parsed by the real parser and iterated by the real MessageReceiver until exhaustion: no panic; the first yields exactly the HEARTBEAT with no timestamp and the header's prefix as source, the second yields nothing and leaves the INFO_SRC prefix and the INFO_TS timestamp in the receiver
 // @bounds datagrams of 56 and 60 bytes (local arrays of up to 60 bytes keep their concrete framing bytes in CBMC; 64 bytes did not finish in 900 s), all value fields symbolic over their full domain; submessage ids / flags / lengths concrete; unwind 30
 // @assume NOT trigger KF-C06-1 (no INFO_REPLY submessage)
 // @enc rtps_messages::overall_structure::RtpsMessageRead::try_from
@@ -142,9 +142,34 @@ fn c06_receiver_dispatch__rest() {
     let (first_sn, last_sn, count): (i64, i64, i32) = (kani::any(), kani::any(), kani::any());
     {
         let mut b = [0u8; 56];
-        put_header(&mut b, &prefix);
-        put_sub(&mut b, 20, 0x09, 0b11, 0); // INFO_TS with the invalidate flag: no timestamp follows
-        put_sub(&mut b, 24, 0x07, 1, 28); // HEARTBEAT (final / liveliness clear)
+        b[0] = b'R';
+        b[1] = b'T';
+        b[2] = b'P';
+        b[3] = b'S';
+        b[4] = 2;
+        b[5] = 4;
+        b[6] = 1;
+        b[7] = 20;
+        b[8] = prefix[0];
+        b[9] = prefix[1];
+        b[10] = prefix[2];
+        b[11] = prefix[3];
+        b[12] = prefix[4];
+        b[13] = prefix[5];
+        b[14] = prefix[6];
+        b[15] = prefix[7];
+        b[16] = prefix[8];
+        b[17] = prefix[9];
+        b[18] = prefix[10];
+        b[19] = prefix[11];
+        b[20] = 0x09;
+        b[21] = 0b11;
+        b[22] = 0;
+        b[23] = 0; // INFO_TS with the invalidate flag: no timestamp follows
+        b[24] = 0x07;
+        b[25] = 1;
+        b[26] = 28;
+        b[27] = 0; // HEARTBEAT (final / liveliness clear)
         put4(&mut b, 28, kani::any());
         put4(&mut b, 32, kani::any());
         put_sn(&mut b, 36, first_sn);
@@ -179,11 +204,36 @@ fn c06_receiver_dispatch__rest() {
         let src: GuidPrefix = kani::any();
         let (sec, frac): (u32, u32) = (kani::any(), kani::any());
         let mut c = [0u8; 60];
-        put_header(&mut c, &prefix);
-        put_sub(&mut c, 20, 0x09, 1, 8); // INFO_TS
+        c[0] = b'R';
+        c[1] = b'T';
+        c[2] = b'P';
+        c[3] = b'S';
+        c[4] = 2;
+        c[5] = 4;
+        c[6] = 1;
+        c[7] = 20;
+        c[8] = prefix[0];
+        c[9] = prefix[1];
+        c[10] = prefix[2];
+        c[11] = prefix[3];
+        c[12] = prefix[4];
+        c[13] = prefix[5];
+        c[14] = prefix[6];
+        c[15] = prefix[7];
+        c[16] = prefix[8];
+        c[17] = prefix[9];
+        c[18] = prefix[10];
+        c[19] = prefix[11];
+        c[20] = 0x09;
+        c[21] = 1;
+        c[22] = 8;
+        c[23] = 0; // INFO_TS
         put4(&mut c, 24, sec.to_le_bytes());
         put4(&mut c, 28, frac.to_le_bytes());
-        put_sub(&mut c, 32, 0x0c, 1, 20); // INFO_SRC: unused(4) version(2) vendor(2) prefix(12)
+        c[32] = 0x0c;
+        c[33] = 1;
+        c[34] = 20;
+        c[35] = 0; // INFO_SRC: unused(4) version(2) vendor(2) prefix(12)
         c[40] = kani::any();
         c[41] = kani::any();
         c[42] = kani::any();
@@ -193,7 +243,10 @@ fn c06_receiver_dispatch__rest() {
             c[44 + i] = src[i];
             i += 1;
         }
-        put_sub(&mut c, 56, 0x01, 1, 0); // PAD
+        c[56] = 0x01;
+        c[57] = 1;
+        c[58] = 0;
+        c[59] = 0; // PAD
         match RtpsMessageRead::try_from(&c[..]) {
             Ok(m) => {
                 assert!(m.submessages().len() == 3, "C06: three submessages parsed");
